@@ -135,6 +135,49 @@ theorem tconv_lowering_valid (H W C : Nat) (ifm : Nat → Nat → Nat → Int) (
     (by omega) (by omega) (by omega) (by omega) oy ox
   simpa using h
 
+/-- **Stride 1x1** (no upscaling, `zeroInserted 1 1` is the IFM itself): with the mirrored padding of the model
+    (`transposedPadAxis`, repair C01-50) the convolution with the reversed kernel is the reference TRANSPOSE_CONV — SAME
+    (`OH = H`) and VALID (`OH = H + k - 1`), all kernel sizes. -/
+theorem tconv_lowering_stride1 (same : Bool) (H W C : Nat) (ifm : Nat → Nat → Nat → Int) (kh kw : Nat) (wgt : Nat → Nat → Nat → Int) (zp : Int)
+    (hH : 0 < H) (hW : 0 < W) (hkh : 0 < kh) (hkw : 0 < kw) (oy ox : Nat) :
+    transposeConvAcc H W C ifm kh kw wgt 1 1 (tconvRefPad same (if same then H else H + kh - 1) 1 kh)
+        (tconvRefPad same (if same then W else W + kw - 1) 1 kw) (-zp) oy ox =
+      convAcc H W C ifm kh kw (flipped kh kw wgt) 1 1 1 1 (transposedPadAxis same kh).1 (transposedPadAxis same kw).1 (-zp) oy ox := by
+  have key : ∀ (X k : Nat), 0 < X → 0 < k → tconvRefPad same (if same then X else X + k - 1) 1 k < k ∧
+      (transposedPadAxis same k).1 = k - 1 - tconvRefPad same (if same then X else X + k - 1) 1 k := by
+    intro X k hX hk
+    cases same
+    · have h1 : outSize false (X + k - 1) 1 k = X := by
+        simp only [outSize, Bool.false_eq_true, if_false]
+        repeat' split
+        all_goals omega
+      simp only [tconvRefPad, transposedPadAxis, Bool.false_eq_true, if_false, h1]
+      split <;> omega
+    · have h1 : outSize true X 1 k = X := by
+        simp only [outSize, if_true]
+        repeat' split
+        all_goals omega
+      simp only [tconvRefPad, transposedPadAxis, if_true, h1]
+      split <;> omega
+  obtain ⟨p1, e1⟩ := key H kh hH hkh
+  obtain ⟨p2, e2⟩ := key W kw hW hkw
+  have h := tconv_as_conv_eq H W C ifm kh kw wgt 1 1 _ _ H W zp (-zp) (by omega) (by omega) (by omega) hH hW p1 p2
+    (by omega) (by omega) (by omega) (by omega) oy ox
+  rw [h, e1, e2]
+  have ez : zeroInserted 1 1 ifm zp = ifm := by
+    funext y x c; simp [zeroInserted, Nat.mod_one]
+  rw [ez]
+
+/-- **the unrepaired stride-1 path is wrong** (finding `transpose-conv-stride1:forward-padding-not-mirrored`): with the padding of
+    the forward convolution (`forwardPadAxis`: SAME 2x2 → top/left 0) the value at (1, 1) of a 2x2 IFM is another one; odd kernels are
+    symmetric and agree. Reproduced on the compiled model (x[1,4,4,3], 2x2, SAME: 47 of 96 elements differ). -/
+theorem tconv_stride1_forward_padding_witness :
+    let ifm : Nat → Nat → Nat → Int := fun y x _ => (y * 2 + x + 1 : Nat)
+    let wgt : Nat → Nat → Nat → Int := fun ky kx _ => (ky * 2 + kx + 1 : Nat)
+    transposeConvAcc 2 2 1 ifm 2 2 wgt 1 1 (tconvRefPad true 2 1 2) (tconvRefPad true 2 1 2) 0 1 1 ≠
+      convAcc 2 2 1 ifm 2 2 (flipped 2 2 wgt) 1 1 1 1 (forwardPadAxis true 2).1 (forwardPadAxis true 2).1 0 1 1 ∧
+    (forwardPadAxis true 3, forwardPadAxis true 5) = (transposedPadAxis true 3, transposedPadAxis true 5) := by decide
+
 /-- the kernel stride matters: the same operator with the TFLite strides (2, 2) left on the kernel (seeded defect C01-r5m1)
     computes another value already on a 2x2 IFM with a 3x3 kernel -/
 theorem tconv_stride_kept_witness :
@@ -152,7 +195,8 @@ example :
       convAcc 4 6 2 (zeroInserted 2 2 ifm 3) 3 3 (flipped 3 3 wgt) 1 1 1 1 2 2 (-3) oy ox) := by decide
 example : calcUpscaledPadding true 3 3 1 1 2 3 2 2 = some (2, 2, 0, 0) ∧ tconvRefPad true 4 2 3 = 0 ∧
     calcUpscaledPadding true 4 5 1 1 2 3 2 2 = some (2, 3, 1, 1) ∧ tconvRefPad true 4 2 4 = 1 ∧
-    lowerTconv false 3 3 2 2 4 4 9 9 = some ⟨⟨true, 1, 1⟩, (2, 2, 1, 1)⟩ := by decide
+    lowerTconv false 3 3 2 2 4 4 9 9 = some ⟨⟨true, 1, 1⟩, (2, 2, 1, 1)⟩ ∧
+    lowerTconv true 2 4 1 1 4 4 4 4 = some ⟨⟨false, 1, 1⟩, (1, 2, 0, 1)⟩ := by decide
 
 /-! ## 9. Grouped convolution = split, convolutions, concatenation -/
 
